@@ -32,7 +32,7 @@ Definition did_key_prefix : bstr := [100; 105; 100; 58; 107; 101; 121; 58].   (*
 
 (* caveat values (the harness's mirrored caveat type uses these kinds) *)
 Inductive cval := VLink (l : link) | VInt (z : Z) | VStr (s : bstr) | VList (l : list bstr)
-  | VMap (m : list (bstr * bstr)) | VOtherKind.
+  | VMap (m : list (bstr * bstr)) | VNull | VOtherKind.
 Definition cval_eqb (a b : cval) : bool :=
   match a, b with
   | VLink x, VLink y => x =? y
@@ -40,6 +40,7 @@ Definition cval_eqb (a b : cval) : bool :=
   | VStr x, VStr y => beq x y
   | VList x, VList y => list_eqb beq x y
   | VMap x, VMap y => list_eqb (fun a b => beq (fst a) (fst b) && beq (snd a) (snd b)) x y
+  | VNull, VNull => true
   | VOtherKind, VOtherKind => true
   | _, _ => false
   end.
